@@ -218,19 +218,23 @@ Fixpoint int_sfx (s : bytes) (longs : nat) (uns : bool) : nat * bool :=
   | [] => (longs, uns)
   end.
 
-Definition parse_int (text : bytes) : option Z :=
+(* occa::parseInt.  full = the version of fixes/C14-1.patch: the U/L suffix is neither read nor used to
+   narrow the value (the caller chooses the type); full = false is the pinned source. *)
+Definition parse_int (full : bool) (text : bytes) : option Z :=
   let s := skip_ws text in
   let '(negative, s1) := strip_sign s in
   if match s1 with c :: _ => (c =? 48)%N | [] => false end then parse_binary text
   else
       let '(ret, s2) := dec_loop s1 0 in
-      let '(longs, uns) := int_sfx s2 O false in
       let ret := if negative then wrap64 (- ret) else ret in
-      Some (match longs with
-            | O => if uns then wrap64 (cast KU32 ret) else wrap64 (cast KI32 ret)
-            | S O => if uns then wrap64 (cast KU64 ret) else wrap64 (cast KI64 ret)
-            | _ => ret
-            end).
+      if full then Some ret
+      else
+        let '(longs, uns) := int_sfx s2 O false in
+        Some (match longs with
+              | O => if uns then wrap64 (cast KU32 ret) else wrap64 (cast KI32 ret)
+              | S O => if uns then wrap64 (cast KU64 ret) else wrap64 (cast KI64 ret)
+              | _ => ret
+              end).
 
 (* ------------------------------------------------------------------ result of a parsing step *)
 Inductive res (A : Type) : Type :=
@@ -255,6 +259,13 @@ Section WithFloats.
   (* areBitwiseEqual *)
   Variable eq32 : F32 -> F32 -> bool.
   Variable eq64 : F64 -> F64 -> bool.
+  (* Which primitive::load is in the tree (both false = the pinned source):
+     lit_by_value : fixes/C14-1.patch — a decimal/octal literal gets the first type that holds its value
+                    and parseInt returns the full 64-bit value;
+     fmt_by_value : fixes/C14-2.patch — the same for hex and binary literals.
+     The check detects the variant of the library under test; the theorems hold for every combination. *)
+  Variable lit_by_value : bool.
+  Variable fmt_by_value : bool.
 
   (* occa::primitive: type + value (the `source` text is kept next to it in JNum) *)
   Inductive prim :=
@@ -410,16 +421,38 @@ Section WithFloats.
     | [] => None
     end.
 
-  (* the value of a literal made of ordinary digits, from the text between c0 and c *)
-  Definition pl_value (s : bytes) (st : sfx) (r' : bytes) : res (prim * bytes) :=
+  (* fixes/C14-1.patch: int32, int64 for decimal literals (uint32, uint64 with U); octal also the unsigned types *)
+  Definition value_kind (negative octal : bool) (st : sfx) (value_ : Z) : ikind :=
+    let magnitude := if negative then wrap64 (- value_) else value_ in
+    let l0 := match sx_longs st with O => true | _ => false end in
+    if l0 && negb (sx_uns st) && (magnitude <=? 2147483647) then KI32
+    else if l0 && (magnitude <=? 4294967295) && (sx_uns st || octal) then KU32
+    else if negb (sx_uns st) && (magnitude <=? 9223372036854775807) then KI64
+    else if sx_uns st || octal then KU64
+    else KI64.
+
+  (* fixes/C14-2.patch: the first of int32, uint32, int64, uint64 that holds the value (unsigned only with U) *)
+  Definition fmt_kind (negative : bool) (st : sfx) (value_ : Z) : ikind :=
+    let wide := match sx_longs st with O => false | _ => true end
+                || (negb negative && (4294967295 <? value_)) in
+    if negb wide then
+      (if sx_uns st || (negb negative && (2147483647 <? value_)) then KU32 else KI32)
+    else
+      (if sx_uns st || (negb negative && (9223372036854775807 <? value_)) then KU64 else KI64).
+
+  (* the value of a literal made of ordinary digits, from the text between c0 and c; `negative` is the
+     sign seen by primitive::load, `octal` = the first digit is 0 *)
+  Definition pl_value (negative octal : bool) (s : bytes) (st : sfx) (r' : bytes) : res (prim * bytes) :=
     let text := consumed s r' in
     if sx_dec st || sx_flt st then
       if sx_flt st then Ok (PF32 (parse32 text), text) r'
       else Ok (PF64 (parse64 text), text) r'
     else
-      match parse_int text with
+      match parse_int lit_by_value text with
       | None => Err
-      | Some value_ => let k' := suffix_kind st in Ok (PInt k' (cast k' value_), text) r'
+      | Some value_ =>
+          let k' := if lit_by_value then value_kind negative octal st value_ else suffix_kind st in
+          Ok (PInt k' (cast k' value_), text) r'
       end.
 
   (* primitive::load(c, includeSign): Ok (p, source) cursor *)
@@ -442,7 +475,9 @@ Section WithFloats.
             | Some None => Ok (PNone, []) s             (* c = c0; return primitive() *)
             | Some (Some (k, x, r)) =>
                 match sfx_loop (prim_load f true) true r (Sfx O false false false) with
-                | Ok st r' => let k' := suffix_kind st in Ok (PInt k' (cast k' x), consumed s r') r'
+                | Ok st r' =>
+                    let k' := if fmt_by_value then fmt_kind negative st (cast KU64 x) else suffix_kind st in
+                    Ok (PInt k' (cast k' x), consumed s r') r'
                 | Err => Err | Oob => Oob | NoFuel => NoFuel
                 end
             | None =>
@@ -451,7 +486,8 @@ Section WithFloats.
                 | O => Ok (PNone, []) s                 (* c = c0; source = "" *)
                 | _ =>
                     match sfx_loop (prim_load f true) false r (Sfx O false decimal false) with
-                    | Ok st r' => pl_value s st r'
+                    | Ok st r' =>
+                        pl_value negative (match s1 with c1 :: _ => (c1 =? 48)%N | [] => false end) s st r'
                     | Err => Err | Oob => Oob | NoFuel => NoFuel
                     end
                 end
